@@ -231,6 +231,13 @@ def gen_cases(sets, meta, tier):
         # J. plateau: the same decode loop 3, 4, 5 times
         for k in (3, 4, 5):
             yield 'plateau%d' % k, si, 'I Hb0 H1 H2 S B ' + ' '.join(['Y3 N O Ra Y4 N O Ra X'] * k)
+        # I2. half-rate toggles around init on setups whose short blocks allow half-rate (>64): the decoder's buffers are sized at init
+        if kind == 'base' and 'ch2_128_256' in name or kind == 'base' and '256_2048' in name:
+            hsig = ['h0', 'h1', 'Y3', 'Y4', 'N', 'O', 'Ra', 'X', 'L', 'S', 'B', 'cb', 'cd']
+            for pre in ('I Hb0 H1 H2 h1 S B', 'I Hb0 H1 H2 S B h1', 'I Hb0 H1 H2 h1 S B Y3 N', 'I Hb0 H1 H2 S B Y3 N h1 X'):
+                for ln in range(1, 4 if tier == 'quick' else 5):
+                    for seq in itertools.product(hsig, repeat=ln):
+                        yield 'hrseq', si, pre + ' ' + ' '.join(seq) + ' Y4 N O Ra Y5 N O Ra'
         # I. call sequences over the whole alphabet, after each prefix
         if kind == 'tiny' or (kind == 'base' and tier == 'thorough'):
             sigma = ['I', 'Hb0', 'H1', 'H2', 'S', 'B', 'Y3', 'Y4p3', 'T3', 'T4p0', 'N', 'O', 'o', 'R0', 'R1', 'Ra', 'RA', 'L', 'X', 'h0', 'h1', 'hp', 'K3', 'D0', 'cb', 'cd', 'ci', 'cc']
@@ -304,7 +311,7 @@ def judge(chk, fam, si, name, ops, line, stats, plateau):
                 continue
             v = int(x)
             if v < 0 and v not in OV:
-                chk.violation(f'undocumented_code:{v}:{fam}', f'{name}: "{ops}" returned {v}', rep)
+                chk.violation('lapout_negative_count' if re.search(r'\bL\b', ops) and v < -138 or (re.search(r'\bL\b', ops) and v % 32 == 0) else f'undocumented_code:{v}:{fam}', f'{name}: "{ops}" returned {v}', rep)
     if fam.startswith('plateau'):
         plateau.setdefault(si, {})[fam] = int(d.get('L', -1))
     stats['outcomes'].add((fam, rcs[:60]))
@@ -329,7 +336,7 @@ def run(tier):
     plateau = {}
     cases = list(gen_cases(sets, meta, tier))
     # cheap families first so that a deadline cuts the big enumerations, not the targeted ones
-    order = {'extreme': 0, 'granule': 1, 'pad': 1, 'plateau3': 1, 'plateau4': 1, 'plateau5': 1, 'prefix': 2, 'field': 3, 'hdrorder': 4, 'trunc': 5, 'bitflip': 6, 'pktflip': 7, 'allbytes': 8, 'callseq': 9}
+    order = {'extreme': 0, 'granule': 1, 'pad': 1, 'plateau3': 1, 'plateau4': 1, 'plateau5': 1, 'prefix': 2, 'field': 3, 'hdrorder': 4, 'trunc': 5, 'hrseq': 5, 'bitflip': 6, 'pktflip': 7, 'allbytes': 8, 'callseq': 9}
     cases.sort(key=lambda c: order.get(c[0], 5))
     cut = False
     done = 0
